@@ -32,7 +32,7 @@ EXTENDS Integers, Sequences, FiniteSets, TLC
 
 \* ---- classes ------------------------------------------------------------
 OpeningOk == {"none", "valid", "valid-zero", "two", "other-sec"}
-OpeningBad == {"two-fields", "four-fields", "empty-symbol", "bad-shares", "bad-acb", "neg-shares", "neg-acb", "empty", "huge"}
+OpeningBad == {"two-fields", "four-fields", "six-fields", "prefix-field", "empty-leading", "trailing-colon", "empty-symbol", "bad-shares", "bad-acb", "neg-shares", "neg-acb", "empty", "huge"}
 OptBad == {"summarize-bad", "date-fmt-bad"}
 OptSummary == {"summarize", "summarize-early", "summarize-late"}
 HeaderOk == {"ok", "bom", "upper", "spaces", "crlf", "no-final-eol", "unknown-col", "dup-col"}
@@ -52,7 +52,7 @@ ConvertRefused == {"blank-action", "blank-security", "blank-shares", "neg-shares
 SureRefused == {"oversell", "sfla-reg", "roc-reg"}
 \* accepted as rows; whether the history is acceptable depends on the holdings at that point
 Contextual == {"roc-none", "sell-gain", "sell-loss", "sell-loss-third", "sell-usd", "sell-all", "sell-af", "sell-sfl", "sell-sfl-forced", "roc", "sfla", "split-rev", "year-2100"}
-Harmless == {"buy", "buy-hi", "buy-usd", "buy-af", "buy-reg", "buy-bar", "split", "year-1900", "sfl-on-buy", "settle-before-trade", "quote-open", "nul-byte"}
+Harmless == {"buy", "buy-hi", "buy-usd", "buy-af", "buy-reg", "buy-bar", "split", "split-third", "year-1900", "sfl-on-buy", "settle-before-trade", "quote-open", "nul-byte"}
 RowClasses == ParseRefused \cup RatesRefused \cup ConvertRefused \cup SureRefused \cup Contextual \cup Harmless \cup {"bad-date", "bad-date-fmt"}
 
 \* an unterminated quote swallows the rest of the file into one cell: later rows are never seen
